@@ -21,6 +21,8 @@ import (
 //	E             export through Document.ToCbor, import, compare with the reference model (a map)
 //	X             export through the enclosing DocumentEx's ToCbor (one DocumentEx object for the whole history), import, compare
 //	W             the caller overwrites the blob returned by the previous export (it owns that buffer)
+//
+// invariant after every op: each blob returned so far still holds the bytes it held when it was returned
 type histOp struct {
 	Kind string `json:"op"` // S C E X W
 	Slot int    `json:"slot,omitempty"`
@@ -121,7 +123,19 @@ func runHistory(h histRecipe) (key, what, outcome string, exports int, herr erro
 	d := &ex.Document
 	m := &model{}
 	var last []byte
+	// every blob handed to the caller so far, with a private copy taken at that moment: a later library call must
+	// not change a blob the caller holds (the caller may: op W, which updates the copy too)
+	type heldBlob struct {
+		blob, copy []byte
+		after      int
+	}
+	var held []heldBlob
 	for step, op := range h.Ops {
+		for _, hb := range held {
+			if !bytes.Equal(hb.blob, hb.copy) {
+				return "history/returned-blob-changed-by-later-call", fmt.Sprintf("the blob returned by the export at step %d was changed by a later call of the library (history %s): the caller's bytes are no longer what was exported", hb.after, fmt.Sprint(h.Ops[:step])), "blob-changed", exports, nil
+			}
+		}
 		switch op.Kind {
 		case "S":
 			b, err := histContent(op.Slot, op.Alt)
@@ -150,6 +164,9 @@ func runHistory(h histRecipe) (key, what, outcome string, exports int, herr erro
 		case "W":
 			for i := range last {
 				last[i] = 0xEE
+			}
+			if len(held) > 0 {
+				held[len(held)-1].copy = bytes.Clone(last)
 			}
 		case "E", "X":
 			var blob []byte
@@ -186,6 +203,12 @@ func runHistory(h histRecipe) (key, what, outcome string, exports int, herr erro
 				return "history/stale-or-wrong-export/" + cl, fmt.Sprintf("after %s the export does not carry the object's current content: %s", hs, det), "content-differs", exports, nil
 			}
 			last = blob
+			held = append(held, heldBlob{blob: blob, copy: bytes.Clone(blob), after: step})
+		}
+	}
+	for _, hb := range held {
+		if !bytes.Equal(hb.blob, hb.copy) {
+			return "history/returned-blob-changed-by-later-call", fmt.Sprintf("the blob returned by the export at step %d was changed by a later call of the library (history %s)", hb.after, fmt.Sprint(h.Ops)), "blob-changed", exports, nil
 		}
 	}
 	return "", "", "ok", exports, nil
